@@ -1,0 +1,7 @@
+//go:build !verif
+
+package server
+
+func verifHook(point int) bool { return false }
+
+func verifYield(point int) {}
